@@ -97,3 +97,52 @@ PROPS["C08"] = dict(
     trusted_base=["modelled, not verified: net/http http.Error (= WriteHeader + one Write of msg+newline) and http.Redirect on a non-GET request (= Location header + WriteHeader); headers are not part of this property's projection"],
     assumptions=["handlers reach the writer through c.Resp / c.SetStatus (not through RawWriter())", "the chain ends normally (panics are C09's subject)"],
 )
+
+_RP_TRUSTED = ["modelled, not verified: net/http request plumbing (httptest-free direct ServeHTTP calls), http.Error/http.NotFound (= WriteHeader + one Write), sync.Pool (any earlier context or a fresh one)",
+               "spec judges for the rp cases (ocaml/rp.ml) are hand-written OCaml on top of the extracted den_block / onion functions"]
+
+PROPS["C12"] = dict(
+    claim=dict(
+        text="Machine-checked proof (Coq 8.16): for every registration program (arbitrarily nested Group calls, Router.Use at any point, routes with variadic and later middleware, NotFound/NotAllowed) the imperative save/extend/run/restore of router.go registers exactly the lexically scoped routes (C12_scoping, C12_program: path = normalised concatenation of enclosing prefixes, middleware = enclosing group middleware in effect at registration, outermost first), Group restores prefix and group middleware (C12_restore), Use inside a group is local to later routes of that group (C12_use_local) and siblings are unaffected (C12_sibling_unaffected). Proof by a nested induction principle over programs. Tie to the code: generated programs are executed against a real Router; Route.Path(), len(Route.Handlers()), the router's scope state after the program (verif accessor) and the handler trace of a request to every route are compared with the extracted model and with the denotation.",
+        note="Trusted: Coq kernel, extraction, driver, harness. Slices are modelled as immutable lists (combineHandlers copies at registration; aliasing of the group slice is exercised by the tie: handler traces of every route are compared after the whole program ran). Controller/Resource registrations are Group calls (Resource is C16).",
+        technique="Coq proof: imperative registration = lexical denotation, by nested structural induction over all programs; extracted model vs implementation differential check"),
+    n=dict(quick=1500, thorough=40000),
+    consts=[],
+    theorems=["C12_scoping", "C12_restore", "C12_program", "C12_use_local", "C12_sibling_unaffected"],
+    rule="case = registration program (groups nested to depth 0..5 with prefixes written /gN, gN or /gN/, sibling groups, Use between routes, routes before/inside/"
+         "between/after groups, variadic and later route middleware) + one request per registered route. Observed: Route.Path(), len(Route.Handlers()), group "
+         "scope after the program, enter/leave trace per request. Non-trivial = distinct program with at least one group and two routes.",
+    trusted_base=_RP_TRUSTED,
+    assumptions=["prefixes are clean non-root segments as in the property's quantifier (spelled with or without leading/trailing slash)"],
+)
+
+PROPS["C04"] = dict(
+    claim=dict(
+        text="Machine-checked proof (Coq 8.16) over a small-step stack machine for Context.Next with the int8 cursor written out: for every chain of at most 63 handlers calling Next at most once, effects happen in onion order and every handler starts exactly once (C04_onion, generic in the effect type, so it also orders writer operations); for arbitrary handler programs (aborts, panics, any ops) with at most one Next each, no handler ever starts twice and the cursor never crashes (C04_each_at_most_once, C04_no_cursor_crash, by a reachable-state invariant); the chain is global ++ route middleware ++ main resp. global ++ fallback handlers (C04_chain_*), and route middleware is the lexically scoped list (C04_route_middleware). K2 (Next twice in 43 middleware wraps the cursor) is kept as a refuted witness and a known finding. Tie to the code: generated registration programs x handler behaviours (no/one/two Next) x requests incl. 404/405 probes; traces, response logs compared with the extracted model; the judge recomputes the onion trace from the denoted chain.",
+        note="Trusted: Coq kernel, extraction, driver, harness. Handlers calling Next twice are covered by the correspondence and the judge (later Next calls are no-ops) but not by a theorem beyond the at-most-once case; the cursor bound is K2. PanicsHandler middleware is outside the model (DESIGN O1).",
+        technique="Coq proof: onion-order theorem and reachable-state invariant of a stack machine with int8 cursor; extracted model vs implementation differential check"),
+    n=dict(quick=1500, thorough=40000),
+    consts=["abort-index"],
+    theorems=["C04_chain_route", "C04_chain_not_found", "C04_chain_not_allowed", "C04_route_middleware", "C04_onion", "C04_each_at_most_once", "C04_no_cursor_crash"],
+    rule="case = registration program (nested groups, Use at top level / in groups / after routes, variadic and later route middleware, custom or default "
+         "NotFound/NotAllowed) x per-handler behaviour (no Next / once / twice, extra events) x one request per route + 404 + 405/OPTIONS probes. Observed: "
+         "ordered enter/leave trace, underlying writer log, escaped panic. Non-trivial = distinct program with a group and two routes.",
+    trusted_base=_RP_TRUSTED,
+    assumptions=["chains within the documented limit (length <= 63)"],
+)
+
+PROPS["C05"] = dict(
+    claim=dict(
+        text="Machine-checked proof (Coq 8.16): for every chain of at most 63 handlers calling Next at most once and every position and flavour of the aborting handler, from the moment an Abort / AbortThen / AbortWithStatus op executes in a state reachable from the start of the request no further handler ever starts, even if Next is called afterwards, and the cursor never crashes (C05_no_later_start, C05_no_later_start_status; by the reachable-state invariant index+debt<=127 whose worst case 63+1+63 is exactly the int8 maximum); suspended handlers resume and apply exactly their remaining effects (C05_suspended_resume); IsAborted is true from then on (C05_is_aborted_after, C05_aborted_stable); AbortWithStatus records its status like SetStatus (C05_status, with C08); registration enforces the limit (C05_limit). K1 (IsAborted true without abort when the cursor reaches 63 by nesting, chains >= 32) is a refuted witness and a known finding. Tie to the code: chains of every length 1..63 x abort position x before/after/without Next x other handlers with/without Next, with IsAborted samples; trace, IsAborted values and status compared with the extracted model; judge checks the clauses on the implementation's trace.",
+        note="Trusted: Coq kernel, extraction, driver, harness. 'IsAborted is false before the first abort' is covered by the correspondence and judge only (no theorem yet); it is false of the code for chains whose nesting reaches the sentinel (K1). Chains longer than 63 (only reachable through global middleware) are outside the property's quantifier (DESIGN O2).",
+        technique="Coq proof: step-preserved potential invariant of the chain machine (abort containment) + termination/resume theorem; extracted model vs implementation differential check"),
+    n=dict(quick=1500, thorough=20000),
+    consts=["abort-index"],
+    theorems=["C05_no_later_start", "C05_no_later_start_status", "C05_suspended_resume", "C05_is_aborted_after", "C05_aborted_stable", "C05_status", "C05_limit"],
+    rule="case = one route behind n-1 middleware split over global / group / route (chain length 1..63), aborting handler at a random position, flavour "
+         "Abort/AbortThen/AbortWithStatus(+later SetStatus), before / after / without Next, other handlers calling Next with probability 3/4, IsAborted samples, "
+         "occasional body writes. Observed: trace with marker before the abort, IsAborted values, writer log. Non-trivial = distinct case with chain length >= 2.",
+    exhaustive_note="thorough additionally enumerates every chain length 1..63 x every position of the aborting handler x {before, after, without Next} (plain Abort)",
+    trusted_base=_RP_TRUSTED,
+    assumptions=["chains within the documented limit (length <= 63)", "handlers call Next at most once (the property's quantifier); more is K2/C04"],
+)
